@@ -79,9 +79,14 @@ def expectedWiring : List (String × String) := [
   ("UpdateSchedule", "updateSchedule(SCHEDULE_UPDATE_STATEMENT)"),
   ("UpdateTask", "updateTask(TASK_UPDATE_STATEMENT)")]
 
-def expectedUniques : List (String × List String) := [
+def expectedUniquesSqlite : List (String × List String) := [
   ("callbacks", ["id"]), ("locks", ["resource_id"]), ("migrations", ["id"]),
   ("promises", ["id", "sort_id"]), ("schedules", ["id", "sort_id"]), ("tasks", ["id", "sort_id"])]
+
+/-- Postgres: `sort_id SERIAL` carries no uniqueness constraint (values come from a sequence). -/
+def expectedUniquesPg : List (String × List String) := [
+  ("callbacks", ["id"]), ("locks", ["resource_id"]), ("migrations", ["id"]),
+  ("promises", ["id"]), ("schedules", ["id"]), ("tasks", ["id"])]
 
 /-- number of rows satisfying `p` -/
 def countP {α} (p : α → Bool) (l : List α) : Nat := (l.filter p).length
